@@ -80,7 +80,15 @@ func StreamBatch(stream <-chan *gdbi.GraphElement, batchSize int, graph string, 
 			if edge.ID == "" {
 				edge.ID = UUID()
 			}
+			// gdbi.Edge and gdbi.Vertex are the same type, Validate is the vertex rule:
+			// the endpoints have to be checked here
 			err := edge.Validate()
+			if err == nil && edge.From == "" {
+				err = fmt.Errorf("'from' cannot be blank")
+			}
+			if err == nil && edge.To == "" {
+				err = fmt.Errorf("'to' cannot be blank")
+			}
 			if err != nil {
 				bulkErr = multierror.Append(
 					bulkErr,
